@@ -3,7 +3,7 @@
     [Print Assumptions]. *)
 From Coq Require Import List Arith.
 Import ListNotations.
-From HV Require Import Tree TreeProofs TreeConc TreeConcProofs.
+From HV Require Import Tree TreeProofs TreeConc TreeConcProofs TreeRace TreeRaceProofs TreeExec TreeModel TreeModelProofs.
 
 (** * C08 — a stopping parent takes all descendants down first *)
 
@@ -75,14 +75,22 @@ Theorem C08_restart_keeps_children :
 Proof. exact restart_keeps_children. Qed.
 Print Assumptions C08_restart_keeps_children.
 
-(* outside the premise: SpawnChild under an id that is taken records the
-   incumbent in the caller's map; it is not the caller's child, and it stays
-   listed after it has stopped *)
-Theorem C08_adoption_corner :
+(* outside the premise: SpawnChild under an id that is taken.  With the repair
+   D21 nothing is recorded ... *)
+Theorem C08_duplicate_spawn_noop :
   let h := [BSpawnTop 1; BSpawnTop 5; BSpawnChild 1 5] in
   ~ hist_fresh s_init h /\
-  children (brun h) 1 = [5] /\ parent (brun h) 5 = None /\
-  children (brun (h ++ [BStopped 5])) 1 = [5] /\ b_reg (brun (h ++ [BStopped 5])) 5 = None.
+  children (brun h) 1 = [] /\ parent (brun h) 5 = None /\
+  children (brun (h ++ [BStopped 5])) 1 = [].
+Proof. exact duplicate_spawn_noop. Qed.
+Print Assumptions C08_duplicate_spawn_noop.
+
+(* ... before it the incumbent was recorded in the caller's map; it is not the
+   caller's child, and it stayed listed after it had stopped *)
+Theorem C08_adoption_corner :
+  let h := [BSpawnTop 1; BSpawnTop 5; BSpawnChild 1 5] in
+  children (brun_pinned h) 1 = [5] /\ parent (brun_pinned h) 5 = None /\
+  children (brun_pinned (h ++ [BStopped 5])) 1 = [5] /\ b_reg (brun_pinned (h ++ [BStopped 5])) 5 = None.
 Proof. exact adoption_witness. Qed.
 Print Assumptions C08_adoption_corner.
 
@@ -154,3 +162,64 @@ Theorem C08_done_oracle_holds_of_model :
   forall t k, NoDup (ids t) -> done_ok t (root t) k (xevents (stop_tree t) ++ [EDone k]) = true.
 Proof. exact done_ok_of_model. Qed.
 Print Assumptions C08_done_oracle_holds_of_model.
+
+(** * The child's delete from its parent's map racing with a re-spawn under the
+      same id (D21), decided on the model TreeRace.v by exhaustive exploration *)
+
+(* before the repair: the old child's delete removes the entry of the child the
+   parent spawned between that child's Registry.Remove and its children.Delete
+   (an orphan: registered, not listed, not stopped with its parent) ... *)
+Theorem C08_respawn_race_orphan_refuted :
+  exists s, rrun pinned 1 (rinit 1 1)
+              [LStopper; LProc 0; LProc 0; LParent; LParent; LProc 0] = Some s /\
+            r_reg s = Some 1 /\ r_map s = None /\ succs pinned 1 s = [].
+Proof. exact pinned_orphan. Qed.
+Print Assumptions C08_respawn_race_orphan_refuted.
+
+(* ... and a duplicate SpawnChild whose Set comes after the child's delete
+   leaves a dead child listed *)
+Theorem C08_respawn_race_stale_refuted :
+  exists s, rrun pinned 1 (rinit 1 1)
+              [LStopper; LParent; LProc 0; LProc 0; LProc 0; LParent] = Some s /\
+            r_reg s = None /\ r_map s = Some 1 /\ succs pinned 1 s = [].
+Proof. exact pinned_stale. Qed.
+Print Assumptions C08_respawn_race_stale_refuted.
+
+(* a Get followed by a Delete (check-then-act) does not close it *)
+Theorem C08_respawn_race_check_then_act_refuted :
+  exists s, rrun check_then_act 1 (rinit 1 1)
+              [LStopper; LProc 0; LProc 0; LProc 0; LParent; LParent; LParent; LProc 0] = Some s /\
+            r_reg s = Some 1 /\ r_map s = None /\ succs check_then_act 1 s = [].
+Proof. exact check_then_act_orphan. Qed.
+Print Assumptions C08_respawn_race_check_then_act_refuted.
+
+(* the repair (insert, Set only if inserted, then Start; atomic delete of one's
+   own entry): in every terminal state of every interleaving, for up to 3
+   requests and 3 stoppers, a child is registered iff it is listed *)
+Theorem C08_respawn_race_repaired :
+  forallb (fun rk => all_agree repaired (fst rk) (snd rk))
+          [(1, 1); (1, 2); (2, 1); (2, 2); (3, 1); (1, 3); (3, 2); (2, 3); (3, 3)] = true.
+Proof. exact repaired_agrees. Qed.
+Print Assumptions C08_respawn_race_repaired.
+
+(** * The predicate evaluated on the implementation holds of the model *)
+
+(* For every well-formed scenario ([wfb], TreeExec.v: what the generators
+   guarantee — distinct ids; a child spawned on demand is new, its parent alive
+   and not stopping; nothing is awaited behind a closed gate; probes, restarts,
+   self-stops and crashes address actors that serve their inbox; a crash comes
+   with the budget used up), the whole predicate [oracle] — every context done;
+   descendants through Stopped before the ancestor enters it and before its
+   context is done, nobody of the subtree alive then; inside Stopped: registered
+   oneself, no descendant registered, no child listed, Parent() the spawner;
+   Parent() at every Started; Children()/Parent() at every probe exactly the
+   children that exist and have not stopped — is true of the observation the
+   model produces ([model_obs], TreeModel.v: every stop carried out when the
+   scenario waits for it, wind-down at the end), and the model's count of
+   Stopped deliveries to replaced incarnations is the number of restarts. *)
+Theorem C08_oracle_holds_of_model :
+  forall c : case,
+    wfb c = true ->
+    oracle (with_obs c (model_obs c)) = true /\ o_rstops (model_obs c) = nrestarts (c_steps c).
+Proof. exact oracle_holds_of_model. Qed.
+Print Assumptions C08_oracle_holds_of_model.
